@@ -2169,17 +2169,17 @@ Proof. exact class_file_rel2_nonvacuous. Qed.
 (* ====================================================================================== *)
 From RU Require Import Proofs.C01_EqFileCover2.
 
-(* Known_C01 (known_c01) against the former predicates: nothing that was outside is inside now, the classes 2-4 are the
+(* Known_C01 (known_c01_v3) against the former predicates: nothing that was outside is inside now, the classes 2-4 are the
    same, without a base nothing changed, and an input that left class 1 is in one of the three proved file classes:
    "file:" R in in_class_file with no file base or with two leading separators, or a scheme-less reference with two
    leading separators against a file base (in_class_file_rel2) *)
 Theorem C01_known_v2 : forall base input,
-  (known_c01_v2 base input = 0 -> known_c01 base input = 0)
-  /\ (known_c01_v1 base input = 0 -> known_c01 base input = 0)
-  /\ (known_c01 base input <> 0 -> known_c01 base input = known_c01_v1 base input)
-  /\ known_c01 None input = known_c01_v2 None input
-  /\ (known_c01 base input = 0 -> known_c01_v1 base input = 0 \/ k_file_narrow base input = true)
-  /\ (forall dbg shs sbase, full_rel dbg shs base sbase -> k_file_narrow base input = true ->
+  (known_c01_v2 base input = 0 -> known_c01_v3 base input = 0)
+  /\ (known_c01_v1 base input = 0 -> known_c01_v3 base input = 0)
+  /\ (known_c01_v3 base input <> 0 -> known_c01_v3 base input = known_c01_v1 base input)
+  /\ known_c01_v3 None input = known_c01_v2 None input
+  /\ (known_c01_v3 base input = 0 -> known_c01_v1 base input = 0 \/ k_file_narrow_v3 base input = true)
+  /\ (forall dbg shs sbase, full_rel dbg shs base sbase -> k_file_narrow_v3 base input = true ->
         (no_file_base sbase || two_sl_file input) && in_class_file input
         || match sbase with Some sb => in_class_file_rel2 sb input | None => false end = true).
 Proof.
@@ -2193,30 +2193,30 @@ Print Assumptions C01_known_v2.
 (* coverage: for base = None or a full_base pair (FILE bases included), EVERY input outside Known_C01 is in
    in_proved_class5 = in_proved_class4 or ("file:" + two separators in in_class_file) or in_class_file_rel2 *)
 Theorem C01_class5_complete : forall dbg shs input base sbase,
-  full_rel dbg shs base sbase -> known_c01 base input = 0 -> in_proved_class5 sbase input = true.
+  full_rel dbg shs base sbase -> known_c01_v3 base input = 0 -> in_proved_class5 sbase input = true.
 Proof. exact all_covers5. Qed.
 Check C01_class5_complete : forall dbg shs input base sbase,
-  full_rel dbg shs base sbase -> known_c01 base input = 0 ->
+  full_rel dbg shs base sbase -> known_c01_v3 base input = 0 ->
   in_proved_class3 sbase input || (no_file_base sbase && in_class_file input)
   || (in_class_file input && two_sl_file input)
   || match sbase with Some sb => in_class_file_rel2 sb input | None => false end = true.
 Print Assumptions C01_class5_complete.
 
 (* C01_statement for Known_C01, one theorem (supersedes C01_statement_all2, which is the same statement for
-   known_c01_v2): base = None or a full_base pair, EVERY scalar-value input with known_c01 base input = 0 - now
+   known_c01_v2): base = None or a full_base pair, EVERY scalar-value input with known_c01_v3 base input = 0 - now
    including, against a FILE base, "file:" + two separators and scheme-less references with two leading separators -
    agree_good, and a successful pair of results is a full_base pair again.  Host functions abstract: host_hyp5 =
    host_hyp3, host_agree_file on the text between "//" and the path of a "file:" input of the file class, the same
    for a scheme-less "//T" against a file base. *)
 Theorem C01_statement_all3 : forall dbg hp hpo hd shp shs input base sbase,
-  usv_list input -> full_rel dbg shs base sbase -> known_c01 base input = 0 ->
+  usv_list input -> full_rel dbg shs base sbase -> known_c01_v3 base input = 0 ->
   host_hyp5 hp hpo hd shp shs sbase input ->
   agree_good dbg shs (parse_url dbg hp hpo hd None base input) (spec_basic_url_parse shp input sbase)
   /\ (forall su u, spec_basic_url_parse shp input sbase = BDone su -> parse_url dbg hp hpo hd None base input = POk u ->
         full_base dbg shs u su).
 Proof. exact statement_all5. Qed.
 Check C01_statement_all3 : forall dbg hp hpo hd shp shs input base sbase,
-  usv_list input -> full_rel dbg shs base sbase -> known_c01 base input = 0 ->
+  usv_list input -> full_rel dbg shs base sbase -> known_c01_v3 base input = 0 ->
   (host_hyp3 hp hpo hd shp shs sbase input
    /\ ((no_file_base sbase || two_sl_file input) && in_class_file input = true ->
        host_agree_file hp hd shp shs (class_host_text_f input))
@@ -2230,7 +2230,7 @@ Print Assumptions C01_statement_all3.
 (* the same for the parser model with the host model plugged in against the Standard's parser with the
    Standard's host parser: relative to IdnaOK idna ONLY *)
 Theorem C01_statement_all3_model : forall dbg idna, IdnaOK idna -> forall input base sbase,
-  usv_list input -> full_rel dbg spec_host_serializer base sbase -> known_c01 base input = 0 ->
+  usv_list input -> full_rel dbg spec_host_serializer base sbase -> known_c01_v3 base input = 0 ->
   agree_good dbg spec_host_serializer
     (parse_url dbg (host_parse idna) host_parse_opaque host_display None base input)
     (spec_basic_url_parse (spec_host_parser idna) input sbase)
@@ -2245,7 +2245,7 @@ Check C01_statement_all3_model : forall dbg idna, IdnaOK idna -> forall input ba
   | Some b, Some sb => (related dbg spec_host_serializer b sb /\ spec_base_ok sb = true) /\ base_shape_ok sb = true
   | _, _ => False
   end ->
-  known_c01 base input = 0 ->
+  known_c01_v3 base input = 0 ->
   let m := parse_url dbg (host_parse idna) host_parse_opaque host_display None base input in
   match spec_basic_url_parse (spec_host_parser idna) input sbase with
   | BDone su => spec_base_ok su = true
@@ -2260,7 +2260,7 @@ Print Assumptions C01_statement_all3_model.
 
 (* with a UTF-8 encoding override *)
 Theorem C01_statement_all3_model_utf8 : forall dbg idna, IdnaOK idna -> forall input base sbase,
-  usv_list input -> full_rel dbg spec_host_serializer base sbase -> known_c01 base input = 0 ->
+  usv_list input -> full_rel dbg spec_host_serializer base sbase -> known_c01_v3 base input = 0 ->
   agree_good dbg spec_host_serializer
     (parse_url dbg (host_parse idna) host_parse_opaque host_display (Some utf8_encode) base input)
     (spec_basic_url_parse (spec_host_parser idna) input sbase).
@@ -2269,13 +2269,13 @@ Print Assumptions C01_statement_all3_model_utf8.
 
 (* in the shape of C01_statement (see C01_statement_instance) *)
 Theorem C01_statement_instance3 : forall dbg idna, IdnaOK idna -> forall input base sbase,
-  usv_list input -> full_rel dbg spec_host_serializer base sbase -> known_c01 base input = 0 ->
+  usv_list input -> full_rel dbg spec_host_serializer base sbase -> known_c01_v3 base input = 0 ->
   statement_shape dbg spec_host_serializer
     (parse_url dbg (host_parse idna) host_parse_opaque host_display None base input)
     (spec_basic_url_parse (spec_host_parser idna) input sbase).
 Proof. exact statement_instance5. Qed.
 Check C01_statement_instance3 : forall dbg idna, IdnaOK idna -> forall input base sbase,
-  usv_list input -> full_rel dbg spec_host_serializer base sbase -> known_c01 base input = 0 ->
+  usv_list input -> full_rel dbg spec_host_serializer base sbase -> known_c01_v3 base input = 0 ->
   match parse_url dbg (host_parse idna) host_parse_opaque host_display None base input,
         spec_basic_url_parse (spec_host_parser idna) input sbase with
   | POk u, BDone su => api_total dbg u = spec_api_list spec_host_serializer su
@@ -2286,27 +2286,27 @@ Check C01_statement_instance3 : forall dbg idna, IdnaOK idna -> forall input bas
 Print Assumptions C01_statement_instance3.
 
 (* what left class 1 and what stays, against the parse result of file://h/tmp/x (vm_compute).  Left (known_c01_v2 = 1,
-   known_c01 = 0): file:///C:/a/../b, file://h2.x/a/../b?q, fIle:\\/y, //h2.x/a/../b?q, \\/y.  Stay in class 1: x, /x,
+   known_c01_v3 = 0): file:///C:/a/../b, file://h2.x/a/../b?q, fIle:\\/y, //h2.x/a/../b?q, \\/y.  Stay in class 1: x, /x,
    file:/x, file:x (the base is read), //h.x/C:/ (F-C01-1), file:////foo (F-C01-3).  Outside as before: #f, the empty
    reference.  Against the parse result of http://u:@h/ nothing changed. *)
 Theorem C01_known_file_narrowed2 :
   match parse_url true (host_parse id_idna) host_parse_opaque host_display None None nar_1,
         parse_url true (host_parse id_idna) host_parse_opaque host_display None None file_base_text with
   | POk bh, POk bf =>
-      let left i := known_c01_v2 (Some bf) i = 1 /\ known_c01 (Some bf) i = 0 in
+      let left i := known_c01_v2 (Some bf) i = 1 /\ known_c01_v3 (Some bf) i = 0 in
       left fnar_1 /\ left f2_1 /\ left f2_2 /\ left f2_3 /\ left f2_4
-      /\ known_c01 (Some bf) [120] = 1 /\ known_c01 (Some bf) [47; 120] = 1
-      /\ known_c01 (Some bf) [102;105;108;101;58;47;120] = 1 /\ known_c01 (Some bf) [102;105;108;101;58;120] = 1
-      /\ known_c01 (Some bf) [47;47;104;46;120;47;67;58;47] = 1 /\ known_c01 (Some bf) fstay_1 = 1
-      /\ known_c01 (Some bf) [35; 102] = 0 /\ known_c01 (Some bf) [] = 0
-      /\ known_c01 (Some bh) f2_3 = known_c01_v2 (Some bh) f2_3 /\ known_c01 (Some bh) fnar_1 = 0
+      /\ known_c01_v3 (Some bf) [120] = 1 /\ known_c01_v3 (Some bf) [47; 120] = 1
+      /\ known_c01_v3 (Some bf) [102;105;108;101;58;47;120] = 1 /\ known_c01_v3 (Some bf) [102;105;108;101;58;120] = 1
+      /\ known_c01_v3 (Some bf) [47;47;104;46;120;47;67;58;47] = 1 /\ known_c01_v3 (Some bf) fstay_1 = 1
+      /\ known_c01_v3 (Some bf) [35; 102] = 0 /\ known_c01_v3 (Some bf) [] = 0
+      /\ known_c01_v3 (Some bh) f2_3 = known_c01_v2 (Some bh) f2_3 /\ known_c01_v3 (Some bh) fnar_1 = 0
   | _, _ => False
   end.
 Proof. exact known_file_narrowed2. Qed.
 Print Assumptions C01_known_file_narrowed2.
 
 (* non-vacuity of C01_statement_all3_model on inputs that only the present predicate admits: FILE base (the parse
-   result of file://h/tmp/x), known_c01 = 0, known_c01_v2 = 1, not in in_proved_class4, both sides succeed with the
+   result of file://h/tmp/x), known_c01_v3 = 0, known_c01_v2 = 1, not in in_proved_class4, both sides succeed with the
    same ten API strings *)
 Example C01_statement_all3_nonvacuous :
   let idna := id_idna in
@@ -2314,7 +2314,7 @@ Example C01_statement_all3_nonvacuous :
   let S sbase i := spec_basic_url_parse (spec_host_parser idna) i sbase in
   match P None file_base_text, S None file_base_text with
   | POk b, BDone sb =>
-      let ok i := known_c01 (Some b) i = 0 /\ known_c01_v2 (Some b) i = 1
+      let ok i := known_c01_v3 (Some b) i = 0 /\ known_c01_v2 (Some b) i = 1
                   /\ in_proved_class4 (Some sb) i = false /\ in_proved_class5 (Some sb) i = true
                   /\ match P (Some b) i, S (Some sb) i with
                      | POk u, BDone su => api_of_model true u = Some (spec_api_list spec_host_serializer su)
@@ -2633,7 +2633,7 @@ Example C01_eq_file_one_nonvacuous :
   match P None file_base_text, S None file_base_text with
   | POk b, BDone sb =>
       let ok (cls : spec_url -> list N -> bool) i h :=
-        cls sb i = true /\ known_c01 (Some b) i = 1
+        cls sb i = true /\ known_c01_v3 (Some b) i = 1
         /\ match P (Some b) i, S (Some sb) i with
            | POk u, BDone su => q_href u = h /\ api_of_model true u = Some (spec_api_list spec_host_serializer su)
            | _, _ => False end in
@@ -2655,7 +2655,7 @@ Example C01_eq_file_one_drive_nonvacuous :
   match P None bt, S None bt with
   | POk b, BDone sb =>
       let ok (cls : spec_url -> list N -> bool) i h :=
-        cls sb i = true /\ known_c01 (Some b) i = 1
+        cls sb i = true /\ known_c01_v3 (Some b) i = 1
         /\ match P (Some b) i, S (Some sb) i with
            | POk u, BDone su => q_href u = h /\ api_of_model true u = Some (spec_api_list spec_host_serializer su)
            | _, _ => False end in
@@ -2676,7 +2676,7 @@ Theorem C01_file_one_exclusion_necessary :
   let i := [47;67;58;47;121] in
   match P None file_base_text, S None file_base_text with
   | POk b, BDone sb =>
-      in_class_file_rel_one sb i = false /\ known_c01 (Some b) i = 1
+      in_class_file_rel_one sb i = false /\ known_c01_v3 (Some b) i = 1
       /\ match P (Some b) i, S (Some sb) i with
          | POk u, BDone su => q_href u = [102;105;108;101;58;47;47;47;67;58;47;121] /\ get_href spec_host_serializer su = [102;105;108;101;58;47;47;104;47;67;58;47;121]
          | _, _ => False end
@@ -2761,7 +2761,7 @@ Example C01_eq_file_drive_nonvacuous :
   match P None bt, S None bt with
   | POk b, BDone sb =>
       let ok (cls : spec_url -> list N -> bool) i h :=
-        cls sb i = true /\ known_c01 (Some b) i = 1
+        cls sb i = true /\ known_c01_v3 (Some b) i = 1
         /\ match P (Some b) i, S (Some sb) i with
            | POk u, BDone su => q_href u = h /\ api_of_model true u = Some (spec_api_list spec_host_serializer su)
            | _, _ => False end in
@@ -2782,7 +2782,7 @@ Theorem C01_file_drive_exclusion_necessary :
   let i := [102;105;108;101;58;67;58;47;121] in
   match P None file_base_text, S None file_base_text with
   | POk b, BDone sb =>
-      in_class_file_same_drive sb i = false /\ known_c01 (Some b) i = 1
+      in_class_file_same_drive sb i = false /\ known_c01_v3 (Some b) i = 1
       /\ match P (Some b) i, S (Some sb) i with
          | POk u, BDone su => q_href u = [102;105;108;101;58;47;47;47;67;58;47;121] /\ get_href spec_host_serializer su = [102;105;108;101;58;47;47;104;47;67;58;47;121]
          | _, _ => False end
@@ -2859,7 +2859,7 @@ Example C01_eq_file_one_carry_nonvacuous :
   match P None bt, S None bt with
   | POk b, BDone sb =>
       let ok (cls : spec_url -> list N -> bool) i h :=
-        cls sb i = true /\ known_c01 (Some b) i = 1
+        cls sb i = true /\ known_c01_v3 (Some b) i = 1
         /\ match P (Some b) i, S (Some sb) i with
            | POk u, BDone su => q_href u = h /\ api_of_model true u = Some (spec_api_list spec_host_serializer su)
            | _, _ => False end in
@@ -2920,6 +2920,159 @@ Theorem C01_known_sole_drive :
      | _, _ => False end.
 Proof. exact known_sole_drive. Qed.
 Print Assumptions C01_known_sole_drive.
+
+(* ====================================================================================== *)
+(* ONE leading separator against a file base folded into Known_C01 (task c01file5)          *)
+(* ====================================================================================== *)
+From RU Require Import Proofs.C01_EqFileCover3.
+
+(* the recogniser Known_C01 computes on the MODEL record of the base and the raw text is sound for the class on the
+   Standard's side *)
+Theorem C01_known_one_keep_sound : forall dbg shs b sb R,
+  related dbg shs b sb -> spec_base_ok sb = true -> list_eqb (b_scheme b) s_file = true -> k_cbb b = false ->
+  forallb (fun c => negb (is_tnl c)) R = true ->
+  k_one_keep b R = true -> k_file_ok R = true -> file_one_ok sb R = true.
+Proof. exact k_one_keep_ok. Qed.
+Print Assumptions C01_known_one_keep_sound.
+
+(* Known_C01 (known_c01) against the predicate of task c01file4 (known_c01_v3): nothing that was outside is inside now,
+   classes 2-4 are the same, without a base nothing changed, and an input that left class 1 satisfies k_arm_one =
+   file base, not cannot-be-a-base, R = the reference or what follows "file:", k_one_keep and k_file_ok on R - and is
+   then in in_class_file_rel_one or in_class_file_same_one *)
+Theorem C01_known_v3 : forall base input,
+  (known_c01_v3 base input = 0 -> known_c01 base input = 0)
+  /\ (known_c01 base input <> 0 -> known_c01 base input = known_c01_v1 base input)
+  /\ known_c01 None input = known_c01_v3 None input
+  /\ (known_c01 base input = 0 -> known_c01_v3 base input = 0 \/ k_arm_one base input = true)
+  /\ (forall dbg shs sbase, full_rel dbg shs base sbase -> k_arm_one base input = true ->
+        match sbase with Some sb => in_class_file_rel_one sb input || in_class_file_same_one sb input | None => false end = true).
+Proof.
+  intros base input. split; [exact (known_v3_zero base input)|]. split; [exact (known_class_same6 base input)|].
+  split; [exact (known_nobase_same6 input)|]. split; [exact (known_split6 base input)|].
+  intros dbg shs sbase. exact (arm_one_in_class dbg shs base sbase input).
+Qed.
+Print Assumptions C01_known_v3.
+
+Theorem C01_class6_complete : forall dbg shs input base sbase,
+  full_rel dbg shs base sbase -> known_c01 base input = 0 -> in_proved_class6 sbase input = true.
+Proof. exact all_covers6. Qed.
+Check C01_class6_complete : forall dbg shs input base sbase,
+  full_rel dbg shs base sbase -> known_c01 base input = 0 ->
+  in_proved_class5 sbase input
+  || match sbase with Some sb => in_class_file_rel_one sb input || in_class_file_same_one sb input | None => false end = true.
+Print Assumptions C01_class6_complete.
+
+(* C01_statement for Known_C01, one theorem (supersedes C01_statement_all3, which is the same statement for
+   known_c01_v3): base = None or a full_base pair, EVERY scalar-value input with known_c01 base input = 0 - now
+   including, against a FILE base, references with ONE leading separator whose host is kept ("/x", "file:/x") -
+   agree_good, and a successful pair of results is a full_base pair again.  host_hyp6 = host_hyp5 + "the Standard's
+   serializer gives the empty string for the empty host" for the new classes. *)
+Theorem C01_statement_all4 : forall dbg hp hpo hd shp shs input base sbase,
+  usv_list input -> full_rel dbg shs base sbase -> known_c01 base input = 0 ->
+  host_hyp6 hp hpo hd shp shs sbase input ->
+  agree_good dbg shs (parse_url dbg hp hpo hd None base input) (spec_basic_url_parse shp input sbase)
+  /\ (forall su u, spec_basic_url_parse shp input sbase = BDone su -> parse_url dbg hp hpo hd None base input = POk u ->
+        full_base dbg shs u su).
+Proof. exact statement_all6. Qed.
+Check C01_statement_all4 : forall dbg hp hpo hd shp shs input base sbase,
+  usv_list input -> full_rel dbg shs base sbase -> known_c01 base input = 0 ->
+  (host_hyp5 hp hpo hd shp shs sbase input
+   /\ (match sbase with Some sb => in_class_file_rel_one sb input || in_class_file_same_one sb input | None => false end = true ->
+       shs SEmpty = [])) ->
+  agree_good dbg shs (parse_url dbg hp hpo hd None base input) (spec_basic_url_parse shp input sbase)
+  /\ (forall su u, spec_basic_url_parse shp input sbase = BDone su -> parse_url dbg hp hpo hd None base input = POk u ->
+        full_base dbg shs u su).
+Print Assumptions C01_statement_all4.
+
+(* the same for the parser model with the host model plugged in against the Standard's parser with the
+   Standard's host parser: relative to IdnaOK idna ONLY *)
+Theorem C01_statement_all4_model : forall dbg idna, IdnaOK idna -> forall input base sbase,
+  usv_list input -> full_rel dbg spec_host_serializer base sbase -> known_c01 base input = 0 ->
+  agree_good dbg spec_host_serializer
+    (parse_url dbg (host_parse idna) host_parse_opaque host_display None base input)
+    (spec_basic_url_parse (spec_host_parser idna) input sbase)
+  /\ (forall su u, spec_basic_url_parse (spec_host_parser idna) input sbase = BDone su ->
+        parse_url dbg (host_parse idna) host_parse_opaque host_display None base input = POk u ->
+        full_base dbg spec_host_serializer u su).
+Proof. exact statement_all6_model. Qed.
+Check C01_statement_all4_model : forall dbg idna, IdnaOK idna -> forall input base sbase,
+  usv_list input ->
+  match base, sbase with
+  | None, None => True
+  | Some b, Some sb => (related dbg spec_host_serializer b sb /\ spec_base_ok sb = true) /\ base_shape_ok sb = true
+  | _, _ => False
+  end ->
+  known_c01 base input = 0 ->
+  let m := parse_url dbg (host_parse idna) host_parse_opaque host_display None base input in
+  match spec_basic_url_parse (spec_host_parser idna) input sbase with
+  | BDone su => spec_base_ok su = true
+                /\ ((m = PErr Overflow /\ U32_MAX_P < nlen (get_href spec_host_serializer su))
+                    \/ exists u, m = POk u /\ related dbg spec_host_serializer u su)
+  | BFailure _ => exists e, m = PErr e
+  | BOutOfFuel => False
+  end
+  /\ (forall su u, spec_basic_url_parse (spec_host_parser idna) input sbase = BDone su -> m = POk u ->
+        (related dbg spec_host_serializer u su /\ spec_base_ok su = true) /\ base_shape_ok su = true).
+Print Assumptions C01_statement_all4_model.
+
+Theorem C01_statement_all4_model_utf8 : forall dbg idna, IdnaOK idna -> forall input base sbase,
+  usv_list input -> full_rel dbg spec_host_serializer base sbase -> known_c01 base input = 0 ->
+  agree_good dbg spec_host_serializer
+    (parse_url dbg (host_parse idna) host_parse_opaque host_display (Some utf8_encode) base input)
+    (spec_basic_url_parse (spec_host_parser idna) input sbase).
+Proof. exact statement_all6_model_utf8. Qed.
+Print Assumptions C01_statement_all4_model_utf8.
+
+Theorem C01_statement_instance4 : forall dbg idna, IdnaOK idna -> forall input base sbase,
+  usv_list input -> full_rel dbg spec_host_serializer base sbase -> known_c01 base input = 0 ->
+  statement_shape dbg spec_host_serializer
+    (parse_url dbg (host_parse idna) host_parse_opaque host_display None base input)
+    (spec_basic_url_parse (spec_host_parser idna) input sbase).
+Proof. exact statement_instance6. Qed.
+Check C01_statement_instance4 : forall dbg idna, IdnaOK idna -> forall input base sbase,
+  usv_list input -> full_rel dbg spec_host_serializer base sbase -> known_c01 base input = 0 ->
+  match parse_url dbg (host_parse idna) host_parse_opaque host_display None base input,
+        spec_basic_url_parse (spec_host_parser idna) input sbase with
+  | POk u, BDone su => api_total dbg u = spec_api_list spec_host_serializer su
+  | PErr Overflow, BDone su => U32_MAX_P < nlen (get_href spec_host_serializer su)
+  | PErr _, BFailure _ => True
+  | _, _ => False
+  end.
+Print Assumptions C01_statement_instance4.
+
+(* what left class 1 and what stays (vm_compute): against the parse result of file://h/tmp/x  /y, \a/../b?q#f, /./C:/z,
+   file:/y  left (known_c01_v3 = 1, known_c01 = 0);  x,  /C:/y,  file:C:/y  stay; against the parse result of
+   file:///C:/dir/f  the reference /y stays (proved beside: C01_eq_file_rel_one_carry) *)
+Theorem C01_known_file_narrowed3 :
+  match parse_url true (host_parse id_idna) host_parse_opaque host_display None None file_base_text,
+        parse_url true (host_parse id_idna) host_parse_opaque host_display None None [102;105;108;101;58;47;47;47;67;58;47;100;105;114;47;102] with
+  | POk bf, POk bc =>
+      let left i := known_c01_v3 (Some bf) i = 1 /\ known_c01 (Some bf) i = 0 in
+      left f3_1 /\ left f3_2 /\ left f3_3 /\ left f3_4
+      /\ known_c01 (Some bf) [120] = 1 /\ known_c01 (Some bf) [47;67;58;47;121] = 1
+      /\ known_c01 (Some bf) [102;105;108;101;58;67;58;47;121] = 1
+      /\ known_c01 (Some bc) f3_1 = 1
+      /\ known_c01 (Some bf) f2_3 = 0 /\ known_c01 (Some bf) [35; 102] = 0 /\ known_c01 (Some bf) [] = 0
+  | _, _ => False
+  end.
+Proof. exact known_file_narrowed3. Qed.
+Print Assumptions C01_known_file_narrowed3.
+
+Example C01_statement_all4_nonvacuous :
+  let idna := id_idna in
+  let P base i := parse_url true (host_parse idna) host_parse_opaque host_display None base i in
+  let S sbase i := spec_basic_url_parse (spec_host_parser idna) i sbase in
+  match P None file_base_text, S None file_base_text with
+  | POk b, BDone sb =>
+      let ok i := known_c01 (Some b) i = 0 /\ known_c01_v3 (Some b) i = 1
+                  /\ in_proved_class5 (Some sb) i = false /\ in_proved_class6 (Some sb) i = true
+                  /\ match P (Some b) i, S (Some sb) i with
+                     | POk u, BDone su => api_of_model true u = Some (spec_api_list spec_host_serializer su)
+                     | _, _ => False end in
+      ok f3_1 /\ ok f3_2 /\ ok f3_3 /\ ok f3_4
+  | _, _ => False
+  end.
+Proof. exact statement_all6_nonvacuous. Qed.
 
 (* ====================================================================================== *)
 (* appended block (task c09last): the *_model theorems for the REAL idna oracle            *)
@@ -3030,3 +3183,16 @@ Example C01_statement_all2_real_nonvacuous :
      | _, _ => False end.
 Proof. split; [exact (IdnaOK2_out idna_long idna_long_ok2)|]. vm_compute. repeat split; reflexivity. Qed.
 
+
+(* for Known_C01 as narrowed by task c01file5, relative to the clause of the oracle hypothesis that holds of the real
+   crate (IdnaOut; IdnaOK2 of C09 implies it) *)
+Theorem C01_statement_all4_real : forall dbg idna, IdnaOut idna -> forall input base sbase,
+  usv_list input -> full_rel dbg spec_host_serializer base sbase -> known_c01 base input = 0 ->
+  agree_good dbg spec_host_serializer
+    (parse_url dbg (host_parse idna) host_parse_opaque host_display None base input)
+    (spec_basic_url_parse (spec_host_parser idna) input sbase)
+  /\ (forall su u, spec_basic_url_parse (spec_host_parser idna) input sbase = BDone su ->
+        parse_url dbg (host_parse idna) host_parse_opaque host_display None base input = POk u ->
+        full_base dbg spec_host_serializer u su).
+Proof. exact statement_all6_out. Qed.
+Print Assumptions C01_statement_all4_real.
